@@ -461,7 +461,7 @@ def check_vcf(spec, ctx):
 def strat_lift(draw, tier="quick"):
     bl = draw(S.layout(max_k=4, allow_empty=False, allow_adjacent=True, allow_overlap=draw(st.integers(0, 4)) == 0, max_len=8, max_gap=6, max_start=10))
     lo, hi = bl[0][0], bl[-1][1]
-    n = hi + draw(st.integers(2, 8))
+    n = hi + draw(st.sampled_from([0, 1, 2, 3, 4, 5, 6, 7, 8]))
     g = draw(S.dna(n, n))
     variants = draw(S.variant_specs(max(0, lo - 8), min(n, hi + 6), max_n=4))
     sp = {"genome": g, "blocks": bl, "strand": draw(st.sampled_from(["+", "-"])), "variants": variants,
@@ -523,7 +523,7 @@ def strat_incorporate(draw, tier="quick"):
         o = draw(S.gene_spec(max_tx=2, max_exons=3, max_len=7, frameshift_prob=0))
         lo = min(t["exons"][0][0] for t in o["transcripts"])
         hi = max(t["exons"][-1][1] for t in o["transcripts"])
-    n = hi + draw(st.integers(2, 8))
+    n = hi + draw(st.sampled_from([0, 1, 2, 3, 4, 5, 6, 7, 8]))
     g = draw(S.dna(n, n))
     variants = draw(S.variant_specs(max(0, lo - 6), min(n, hi + 5), max_n=3))
     sp = {"kind": kind, "obj": o, "genome": g, "variants": variants, "as_collection": draw(st.sampled_from([True, True, False]))}
